@@ -148,7 +148,7 @@ func (cs *ContractSet) load(pkgs []*packages.Package) error {
 		seen[p.PkgPath] = true
 		cs.pkgs[p.PkgPath] = p.Types
 		for _, f := range p.GoFiles {
-			if strings.HasPrefix(filepath.Base(f), "zz_verif_contracts") {
+			if strings.HasPrefix(filepath.Base(f), "zz_verif_") {
 				if err := cs.loadFile(f, p); err != nil {
 					return err
 				}
